@@ -43,6 +43,7 @@ class PathSummary:
         self.facts = {}
         self.order = []       # [(canon, truth, n events before)] in path order
         self.order_nodes = []  # aligned: (cfg node, edge label)
+        self.order_ast = {}    # index into order -> resolved AST (positions kept)
         self.events = []
         self.ret = None
         self.ret_node = None
@@ -192,6 +193,20 @@ def _reflexive(c):
         norm_src(e.left) == norm_src(e.comparators[0]) and _pure(e.left)
 
 
+def _mark_stale(ps, stale, since):
+    """a store/del through X[...] or X.attr since the last test may have
+    changed what earlier call-free conditions about X evaluate to"""
+    for e in ps.events[since:]:
+        if e.kind in ('store', 'del', 'aug') and e.r is not None:
+            root = e.r
+            while isinstance(root, ast.Subscript):
+                root = root.value
+            txt = norm_src(root)
+            for c in ps.facts:
+                if txt in c:
+                    stale.add(c)
+
+
 def summarise(func, limit=6000, to_raise=True):
     cfg = cfg_of(func)
     out = []
@@ -200,6 +215,8 @@ def summarise(func, limit=6000, to_raise=True):
         ps.path = path
         env = Env()
         fact_bind = {}
+        stale = set()      # facts about storage that was written since
+        nev = 0
         seen_iters = set()
         iterated = set()
         iter_bind = {}
@@ -213,14 +230,25 @@ def summarise(func, limit=6000, to_raise=True):
                 c, pol = canon(t, True)
                 if lab in ('T', 'F'):
                     truth = pol if lab == 'T' else (not pol)
+                    # a test on a constant (flags introduced by the inliner,
+                    # `while 1`) has only one feasible outcome
+                    core = t
+                    while isinstance(core, ast.UnaryOp) and isinstance(core.op, ast.Not):
+                        core = core.operand
+                    if isinstance(core, ast.Constant) and bool(core.value) != truth:
+                        ps.infeasible = True
                     b = env.binding(a)
-                    if c in ps.facts and ps.facts[c] != truth and (
+                    _mark_stale(ps, stale, nev)
+                    nev = len(ps.events)
+                    if c in ps.facts and ps.facts[c] != truth and c not in stale and (
                             _pure(t) or (_pure(a) and fact_bind.get(c) == b)):
                         ps.infeasible = True
+                    stale.discard(c)
                     if not truth and _reflexive(c):
                         ps.infeasible = True
                     fact_bind[c] = b
                     ps.facts[c] = truth
+                    ps.order_ast[len(ps.order)] = t
                     ps.order.append((c, truth, len(ps.events)))
                     ps.order_nodes.append((n, lab))
                 for x in eval_order(a):
@@ -257,6 +285,7 @@ def summarise(func, limit=6000, to_raise=True):
                     if ps.facts.get(c) is False and stable:
                         ps.infeasible = True
                     ps.facts[c] = True
+                    ps.order_ast[len(ps.order)] = it
                     ps.order.append((c, True, len(ps.events)))
                     ps.order_nodes.append((n, lab))
                 elif lab == 'exhausted':
